@@ -40,4 +40,54 @@ def opPix (args res : List String) : Verdict :=
   | _, "trap" :: _ => { spec := some "to_pixmap-panicked", model := some "trap" }
   | _, _ => {}
 
+
+/-- twice the pixel coordinate of a module coordinate at 8 px per module (floor) -/
+def twoPix (x : Dy) : Int := (x.num * 16) / ((2 : Int) ^ x.exp)
+
+def within (a b : Int) (tol : Nat) : Bool := (a - b).natAbs ≤ tol
+
+/-- `pixframe <hex> e m v k <ops> => ok <side> <n> <x0> <y0> <x1> <y1>` | `ok <side> <n> none` -/
+def opPixFrame (args res : List String) : Verdict :=
+  match args, res with
+  | [_, _, _, _, _, opsS], "ok" :: w :: n :: box =>
+    (match parseSvgOps opsS with
+     | none => { spec := some "bad-ops" }
+     | some ops =>
+       let b := Svg.Builder.run ops
+       let n := n.toNat!
+       let w := w.toNat!
+       match box, Svg.frame b n with
+       | [x0, y0, x1, y1], some f =>
+         let x0 : Int := x0.toNat!
+         let y0 : Int := y0.toNat!
+         let x1 : Int := x1.toNat!
+         let y1 : Int := y1.toNat!
+         -- the property, read from the pixels (2 px = a quarter module of tolerance for anti-aliased edges)
+         let spec := firstFail [
+           (if within (x1 - x0) (y1 - y0) 1 then none else some "frame-not-square-in-pixels"),
+           (match b.imagePos with
+            | some (px, py) =>
+              if within (x0 + x1) (twoPix px) 2 ∧ within (y0 + y1) (twoPix py) 2 then none
+              else some "rendered-frame-not-centred-on-requested-position"
+            | none =>
+              if within (x0 + x1) (w : Int) 2 ∧ within (y0 + y1) (w : Int) 2 then none
+              else some "rendered-frame-not-centred-on-the-symbol"),
+           (match b.imageSize, b.imageGap with
+            | some sz, some gp =>
+              let full := twoPix (sz + gp.double)
+              if 2 * (x1 - x0) ≤ full + 2 ∧ full - 16 - 2 ≤ 2 * (x1 - x0) then none
+              else some "rendered-frame-does-not-exceed-the-image-by-the-gap"
+            | _, _ => none)]
+         let model := firstFail [
+           (if within (2 * x0) (twoPix f.x) 2 ∧ within (2 * y0) (twoPix f.y) 2 then none
+            else some s!"frame-origin:model({twoPix f.x},{twoPix f.y})/2 got({x0},{y0})"),
+           (if within (2 * x1) (twoPix (f.x + f.border)) 2 ∧ within (2 * y1) (twoPix (f.y + f.border)) 2 then none
+            else some s!"frame-far-corner:model({twoPix (f.x + f.border)},{twoPix (f.y + f.border)})/2 got({x1},{y1})")]
+         { spec := spec, model := model }
+       | ["none"], _ => { spec := some "no-frame-in-the-pixmap", model := some "no-frame" }
+       | _, none => { spec := some "model-has-no-frame" }
+       | _, _ => { spec := some "bad-result" })
+  | _, "trap" :: _ => { spec := some "to_pixmap-panicked", model := some "trap" }
+  | _, _ => {}
+
 end Driver
